@@ -426,6 +426,15 @@ def do_grad(acc, orc, form, method, order):
         text = '%s has shape %r, expected %r (shape of the flattened x; 0-d for one element)' % (head, got, want)
         acc.violation('C03:Gradient:shape:x-%s:%s' % (fclass, 'size1' if n == 1 else 'size>1'), jc, text, rank)
         return text
+    # the same request with the info record switched on: (value, info) with a value of the same shape
+    status, full = call(lambda: nd.Gradient(fun, method=method, order=order, full_output=True)(x))
+    gotf = tuple(np.shape(full[0])) if status == 'ok' and isinstance(full, tuple) and len(full) == 2 else None
+    if gotf != want:
+        acc.case(case, nontrivial=nontriv, cell=cells, outcome=('shape-full_output', status, gotf))
+        text = '%s with full_output=True: %s, value of shape %r, expected a (value, info) pair with a value of shape %r' % (
+            head, status if status != 'ok' else 'returned', gotf, want)
+        acc.violation('C03:Gradient:shape:full_output:x-%s:%s' % (fclass, 'size1' if n == 1 else 'size>1'), jc, text, rank)
+        return text
     status, jac = call(lambda: nd.Jacobian(fun, method=method, order=order)(flat))
     if status != 'ok' or np.shape(jac) != (1, n):
         # the Jacobian's own failure is reported by the Jacobian part; nothing to compare with
